@@ -41,6 +41,10 @@ def gen_hists(cfgname, num, depth, sd):
 # the randomized driver: descriptors in the MC_Ledger format, built from the implementation's own
 # unspent sets (the oracle stays TLC's ledger)
 
+class _ParentGone(Exception):
+    pass
+
+
 class RandomTree:
     def __init__(self, world, rec, rng, nkeys=3, p_mut=0.3, hdr=False):
         self.w, self.rec, self.rng = world, rec, rng
@@ -69,6 +73,12 @@ class RandomTree:
         except KeyError:
             if self.hdr:
                 return []           # header-only trees need no spendable outputs (the holder of the state may not have taken this block)
+            # the holder of the state no longer has a block it had taken (a node rolls back to its last validated state): forget it and
+            # what was built on it, and let the caller choose again
+            gone = {a for a in self.stored if self.w.by_abs[a].hash() not in cs.block_by_hash}
+            if absblk in gone and len(gone) < len(self.stored):
+                self.stored = [a for a in self.stored if a not in gone]
+                raise _ParentGone()
             raise
         rows = []
         for r, o in u.items():
@@ -232,6 +242,14 @@ class RandomTree:
 
     def step(self, now_slack=0, force=None, parent=None, include=None):
         """force: None | "" (a valid block) | a mutation name (HDR_MUTS / TX_MUTS / "reward+1" ...)."""
+        for _ in range(4):
+            try:
+                return self._step(now_slack, force, parent, include)
+            except _ParentGone:
+                parent = None
+        return "rej", ""
+
+    def _step(self, now_slack=0, force=None, parent=None, include=None):
         rng, w = self.rng, self.w
         if parent is None:
             parent = rng.choice(self.stored) if rng.random() < 0.6 else self.stored[-1]
@@ -971,6 +989,36 @@ def run(pid, tier, replay=None):
               "C05": lambda w_, b_: w_.concretise(dict(blkd(12, 1, 2, [cbd(12, 2, 4)]), ts=b_[1].timestamp))}[pid]
         handover.stage_adversarial(chk, quick, rng, pid, cfg_i, keys, nodechk.build_universe, mk,
                                    {"C01": "spend_not_authorised_by_the_owner", "C02": "reward_above_subsidy_plus_fees", "C05": "timestamp_not_later_than_the_parent_s"}[pid])
+        sk.restore_cfg()
+    if pid in ("C01", "C02"):
+        # ---- the same rules on the node's delivery path: random trees with every alteration class pushed by peers, some of them while the
+        #      node's own request for blocks to that peer is still unanswered (the block is unsolicited all the same: in_response_to = 0)
+        from checks import node as nodechk
+        from harness import node_drv
+        cfg_n = sk.Cfg(**nodechk.MODEL_CFG)
+        sk.apply_cfg(cfg_n)
+        sba, hba = nodechk.probe_switches(cfg_n, keys)
+        nconsts = nodechk.ledger_consts(cfg_n, {pid}, sba, hba)
+        nconsts["Focus"] = {pid}
+        ntraces, nlabels = [], []
+        for i in range(14 if quick else 140):
+            w3 = sk.World(cfg_n, keys, tag=b"c12d%d" % i)
+            g3 = w3.make_genesis(ts=5000)
+            run_ = node_drv.NodeRun(w3, g3, peers=nodechk.PEERS, tid=900000 + i, clock0=5000)
+            try:
+                nrec = nodechk.NodeRec(run_, rng, fetch_p=0.5)
+                rt = RandomTree(w3, nrec, rng, nkeys=3, p_mut=0.4)
+                lab = []
+                for k in range(14 if quick else 28):
+                    res, m = rt.step()
+                    lab.append(["block", res, m])
+                if run_.events:
+                    ntraces.append(run_.trace())
+                    nlabels.append(lab)
+                chk.case(json.dumps(["node", lab]), nontrivial=any(x[2] for x in lab))
+            finally:
+                run_.close()
+        nodechk.judge(chk, ntraces, nlabels, nconsts)
         sk.restore_cfg()
     if pid in ("C01", "C02", "C03"):
         # ---- the ledger state a restarted node validates against: a crash at every SQL statement of a flush of the real store, then the real
